@@ -27,6 +27,12 @@ open GV GV.MSMProto
 theorem packages : Gen.MSMProto.packages =
     ["bls12_377", "bls12_381", "bls24_315", "bls24_317", "bn254", "bw6_633", "bw6_761", "grumpkin", "secp256k1"] := by decide
 
+/-- all interleavings: no panic, no blocked release, no deadlock (statement: `Safe` in Proofs/MSMProto.lean) -/
+theorem proto_safe (ws rs : List Fn) (f : Fn) (hm : MainOK ws rs f = true) (K nb : Nat) (hK : 1 ≤ K) (hnb : 1 ≤ nb)
+    (split : Nat → Bool) (pick : Nat → Fn) (hpick : ∀ j, WorkerOK (pick j) = true) (s : State)
+    (hr : Reachable (capOf (semCapOf f K nb)) (initState (mainTrace f rs K nb true split pick)) s) :
+    Safe (capOf (semCapOf f K nb)) s :=
+  proto_safe_core ws rs f hm K nb hK hnb split pick hpick s hr
 
 /-- the chunk processor of seeded change C04r3-2: the token is handed back by a `defer` placed after the acquisition, i.e. AFTER
 `chRes <- total` -/
@@ -83,11 +89,27 @@ theorem msmReduceChunkG2Affine_ok : ReduceOK Gen.MSMProto.bls12_377.msmReduceChu
 every result channel received exactly once before the return; the goroutines it starts are `WorkerOK` chunk processors -/
 theorem _innerMsmG1_ok : MainOK Gen.MSMProto.bls12_377.workers Gen.MSMProto.bls12_377.reduces Gen.MSMProto.bls12_377.f_innerMsmG1 = true := by decide
 
+/-- hence, for every NbTasks ≥ 1 below NumCPU, every number of chunks, every set of overweight chunks, every choice of chunk
+processors and EVERY interleaving: no send on a closed channel, a release never blocks, no deadlock -/
+theorem _innerMsmG1_safe (K nb : Nat) (hK : 1 ≤ K) (hnb : 1 ≤ nb) (split : Nat → Bool) (pick : Nat → Fn)
+    (hpick : ∀ j, pick j ∈ Gen.MSMProto.bls12_377.workers) (s : State)
+    (hr : Reachable (capOf (semCapOf Gen.MSMProto.bls12_377.f_innerMsmG1 K nb))
+      (initState (mainTrace Gen.MSMProto.bls12_377.f_innerMsmG1 Gen.MSMProto.bls12_377.reduces K nb true split pick)) s) :
+    Safe (capOf (semCapOf Gen.MSMProto.bls12_377.f_innerMsmG1 K nb)) s :=
+  proto_safe _ _ _ _innerMsmG1_ok K nb hK hnb split pick (fun j => workers_ok _ (hpick j)) s hr
 
 /-- ecc/bls12_377 `_innerMsmG2`: NbTasks tokens pre-filled, capacity ≥ NbTasks + nbChunks, one extra token per split, `close(sem)` deferred,
 every result channel received exactly once before the return; the goroutines it starts are `WorkerOK` chunk processors -/
 theorem _innerMsmG2_ok : MainOK Gen.MSMProto.bls12_377.workers Gen.MSMProto.bls12_377.reduces Gen.MSMProto.bls12_377.f_innerMsmG2 = true := by decide
 
+/-- hence, for every NbTasks ≥ 1 below NumCPU, every number of chunks, every set of overweight chunks, every choice of chunk
+processors and EVERY interleaving: no send on a closed channel, a release never blocks, no deadlock -/
+theorem _innerMsmG2_safe (K nb : Nat) (hK : 1 ≤ K) (hnb : 1 ≤ nb) (split : Nat → Bool) (pick : Nat → Fn)
+    (hpick : ∀ j, pick j ∈ Gen.MSMProto.bls12_377.workers) (s : State)
+    (hr : Reachable (capOf (semCapOf Gen.MSMProto.bls12_377.f_innerMsmG2 K nb))
+      (initState (mainTrace Gen.MSMProto.bls12_377.f_innerMsmG2 Gen.MSMProto.bls12_377.reduces K nb true split pick)) s) :
+    Safe (capOf (semCapOf Gen.MSMProto.bls12_377.f_innerMsmG2 K nb)) s :=
+  proto_safe _ _ _ _innerMsmG2_ok K nb hK hnb split pick (fun j => workers_ok _ (hpick j)) s hr
 
 end bls12_377
 
@@ -122,11 +144,27 @@ theorem msmReduceChunkG2Affine_ok : ReduceOK Gen.MSMProto.bls12_381.msmReduceChu
 every result channel received exactly once before the return; the goroutines it starts are `WorkerOK` chunk processors -/
 theorem _innerMsmG1_ok : MainOK Gen.MSMProto.bls12_381.workers Gen.MSMProto.bls12_381.reduces Gen.MSMProto.bls12_381.f_innerMsmG1 = true := by decide
 
+/-- hence, for every NbTasks ≥ 1 below NumCPU, every number of chunks, every set of overweight chunks, every choice of chunk
+processors and EVERY interleaving: no send on a closed channel, a release never blocks, no deadlock -/
+theorem _innerMsmG1_safe (K nb : Nat) (hK : 1 ≤ K) (hnb : 1 ≤ nb) (split : Nat → Bool) (pick : Nat → Fn)
+    (hpick : ∀ j, pick j ∈ Gen.MSMProto.bls12_381.workers) (s : State)
+    (hr : Reachable (capOf (semCapOf Gen.MSMProto.bls12_381.f_innerMsmG1 K nb))
+      (initState (mainTrace Gen.MSMProto.bls12_381.f_innerMsmG1 Gen.MSMProto.bls12_381.reduces K nb true split pick)) s) :
+    Safe (capOf (semCapOf Gen.MSMProto.bls12_381.f_innerMsmG1 K nb)) s :=
+  proto_safe _ _ _ _innerMsmG1_ok K nb hK hnb split pick (fun j => workers_ok _ (hpick j)) s hr
 
 /-- ecc/bls12_381 `_innerMsmG2`: NbTasks tokens pre-filled, capacity ≥ NbTasks + nbChunks, one extra token per split, `close(sem)` deferred,
 every result channel received exactly once before the return; the goroutines it starts are `WorkerOK` chunk processors -/
 theorem _innerMsmG2_ok : MainOK Gen.MSMProto.bls12_381.workers Gen.MSMProto.bls12_381.reduces Gen.MSMProto.bls12_381.f_innerMsmG2 = true := by decide
 
+/-- hence, for every NbTasks ≥ 1 below NumCPU, every number of chunks, every set of overweight chunks, every choice of chunk
+processors and EVERY interleaving: no send on a closed channel, a release never blocks, no deadlock -/
+theorem _innerMsmG2_safe (K nb : Nat) (hK : 1 ≤ K) (hnb : 1 ≤ nb) (split : Nat → Bool) (pick : Nat → Fn)
+    (hpick : ∀ j, pick j ∈ Gen.MSMProto.bls12_381.workers) (s : State)
+    (hr : Reachable (capOf (semCapOf Gen.MSMProto.bls12_381.f_innerMsmG2 K nb))
+      (initState (mainTrace Gen.MSMProto.bls12_381.f_innerMsmG2 Gen.MSMProto.bls12_381.reduces K nb true split pick)) s) :
+    Safe (capOf (semCapOf Gen.MSMProto.bls12_381.f_innerMsmG2 K nb)) s :=
+  proto_safe _ _ _ _innerMsmG2_ok K nb hK hnb split pick (fun j => workers_ok _ (hpick j)) s hr
 
 end bls12_381
 
@@ -161,11 +199,27 @@ theorem msmReduceChunkG2Affine_ok : ReduceOK Gen.MSMProto.bls24_315.msmReduceChu
 every result channel received exactly once before the return; the goroutines it starts are `WorkerOK` chunk processors -/
 theorem _innerMsmG1_ok : MainOK Gen.MSMProto.bls24_315.workers Gen.MSMProto.bls24_315.reduces Gen.MSMProto.bls24_315.f_innerMsmG1 = true := by decide
 
+/-- hence, for every NbTasks ≥ 1 below NumCPU, every number of chunks, every set of overweight chunks, every choice of chunk
+processors and EVERY interleaving: no send on a closed channel, a release never blocks, no deadlock -/
+theorem _innerMsmG1_safe (K nb : Nat) (hK : 1 ≤ K) (hnb : 1 ≤ nb) (split : Nat → Bool) (pick : Nat → Fn)
+    (hpick : ∀ j, pick j ∈ Gen.MSMProto.bls24_315.workers) (s : State)
+    (hr : Reachable (capOf (semCapOf Gen.MSMProto.bls24_315.f_innerMsmG1 K nb))
+      (initState (mainTrace Gen.MSMProto.bls24_315.f_innerMsmG1 Gen.MSMProto.bls24_315.reduces K nb true split pick)) s) :
+    Safe (capOf (semCapOf Gen.MSMProto.bls24_315.f_innerMsmG1 K nb)) s :=
+  proto_safe _ _ _ _innerMsmG1_ok K nb hK hnb split pick (fun j => workers_ok _ (hpick j)) s hr
 
 /-- ecc/bls24_315 `_innerMsmG2`: NbTasks tokens pre-filled, capacity ≥ NbTasks + nbChunks, one extra token per split, `close(sem)` deferred,
 every result channel received exactly once before the return; the goroutines it starts are `WorkerOK` chunk processors -/
 theorem _innerMsmG2_ok : MainOK Gen.MSMProto.bls24_315.workers Gen.MSMProto.bls24_315.reduces Gen.MSMProto.bls24_315.f_innerMsmG2 = true := by decide
 
+/-- hence, for every NbTasks ≥ 1 below NumCPU, every number of chunks, every set of overweight chunks, every choice of chunk
+processors and EVERY interleaving: no send on a closed channel, a release never blocks, no deadlock -/
+theorem _innerMsmG2_safe (K nb : Nat) (hK : 1 ≤ K) (hnb : 1 ≤ nb) (split : Nat → Bool) (pick : Nat → Fn)
+    (hpick : ∀ j, pick j ∈ Gen.MSMProto.bls24_315.workers) (s : State)
+    (hr : Reachable (capOf (semCapOf Gen.MSMProto.bls24_315.f_innerMsmG2 K nb))
+      (initState (mainTrace Gen.MSMProto.bls24_315.f_innerMsmG2 Gen.MSMProto.bls24_315.reduces K nb true split pick)) s) :
+    Safe (capOf (semCapOf Gen.MSMProto.bls24_315.f_innerMsmG2 K nb)) s :=
+  proto_safe _ _ _ _innerMsmG2_ok K nb hK hnb split pick (fun j => workers_ok _ (hpick j)) s hr
 
 end bls24_315
 
@@ -200,11 +254,27 @@ theorem msmReduceChunkG2Affine_ok : ReduceOK Gen.MSMProto.bls24_317.msmReduceChu
 every result channel received exactly once before the return; the goroutines it starts are `WorkerOK` chunk processors -/
 theorem _innerMsmG1_ok : MainOK Gen.MSMProto.bls24_317.workers Gen.MSMProto.bls24_317.reduces Gen.MSMProto.bls24_317.f_innerMsmG1 = true := by decide
 
+/-- hence, for every NbTasks ≥ 1 below NumCPU, every number of chunks, every set of overweight chunks, every choice of chunk
+processors and EVERY interleaving: no send on a closed channel, a release never blocks, no deadlock -/
+theorem _innerMsmG1_safe (K nb : Nat) (hK : 1 ≤ K) (hnb : 1 ≤ nb) (split : Nat → Bool) (pick : Nat → Fn)
+    (hpick : ∀ j, pick j ∈ Gen.MSMProto.bls24_317.workers) (s : State)
+    (hr : Reachable (capOf (semCapOf Gen.MSMProto.bls24_317.f_innerMsmG1 K nb))
+      (initState (mainTrace Gen.MSMProto.bls24_317.f_innerMsmG1 Gen.MSMProto.bls24_317.reduces K nb true split pick)) s) :
+    Safe (capOf (semCapOf Gen.MSMProto.bls24_317.f_innerMsmG1 K nb)) s :=
+  proto_safe _ _ _ _innerMsmG1_ok K nb hK hnb split pick (fun j => workers_ok _ (hpick j)) s hr
 
 /-- ecc/bls24_317 `_innerMsmG2`: NbTasks tokens pre-filled, capacity ≥ NbTasks + nbChunks, one extra token per split, `close(sem)` deferred,
 every result channel received exactly once before the return; the goroutines it starts are `WorkerOK` chunk processors -/
 theorem _innerMsmG2_ok : MainOK Gen.MSMProto.bls24_317.workers Gen.MSMProto.bls24_317.reduces Gen.MSMProto.bls24_317.f_innerMsmG2 = true := by decide
 
+/-- hence, for every NbTasks ≥ 1 below NumCPU, every number of chunks, every set of overweight chunks, every choice of chunk
+processors and EVERY interleaving: no send on a closed channel, a release never blocks, no deadlock -/
+theorem _innerMsmG2_safe (K nb : Nat) (hK : 1 ≤ K) (hnb : 1 ≤ nb) (split : Nat → Bool) (pick : Nat → Fn)
+    (hpick : ∀ j, pick j ∈ Gen.MSMProto.bls24_317.workers) (s : State)
+    (hr : Reachable (capOf (semCapOf Gen.MSMProto.bls24_317.f_innerMsmG2 K nb))
+      (initState (mainTrace Gen.MSMProto.bls24_317.f_innerMsmG2 Gen.MSMProto.bls24_317.reduces K nb true split pick)) s) :
+    Safe (capOf (semCapOf Gen.MSMProto.bls24_317.f_innerMsmG2 K nb)) s :=
+  proto_safe _ _ _ _innerMsmG2_ok K nb hK hnb split pick (fun j => workers_ok _ (hpick j)) s hr
 
 end bls24_317
 
@@ -239,11 +309,27 @@ theorem msmReduceChunkG2Affine_ok : ReduceOK Gen.MSMProto.bn254.msmReduceChunkG2
 every result channel received exactly once before the return; the goroutines it starts are `WorkerOK` chunk processors -/
 theorem _innerMsmG1_ok : MainOK Gen.MSMProto.bn254.workers Gen.MSMProto.bn254.reduces Gen.MSMProto.bn254.f_innerMsmG1 = true := by decide
 
+/-- hence, for every NbTasks ≥ 1 below NumCPU, every number of chunks, every set of overweight chunks, every choice of chunk
+processors and EVERY interleaving: no send on a closed channel, a release never blocks, no deadlock -/
+theorem _innerMsmG1_safe (K nb : Nat) (hK : 1 ≤ K) (hnb : 1 ≤ nb) (split : Nat → Bool) (pick : Nat → Fn)
+    (hpick : ∀ j, pick j ∈ Gen.MSMProto.bn254.workers) (s : State)
+    (hr : Reachable (capOf (semCapOf Gen.MSMProto.bn254.f_innerMsmG1 K nb))
+      (initState (mainTrace Gen.MSMProto.bn254.f_innerMsmG1 Gen.MSMProto.bn254.reduces K nb true split pick)) s) :
+    Safe (capOf (semCapOf Gen.MSMProto.bn254.f_innerMsmG1 K nb)) s :=
+  proto_safe _ _ _ _innerMsmG1_ok K nb hK hnb split pick (fun j => workers_ok _ (hpick j)) s hr
 
 /-- ecc/bn254 `_innerMsmG2`: NbTasks tokens pre-filled, capacity ≥ NbTasks + nbChunks, one extra token per split, `close(sem)` deferred,
 every result channel received exactly once before the return; the goroutines it starts are `WorkerOK` chunk processors -/
 theorem _innerMsmG2_ok : MainOK Gen.MSMProto.bn254.workers Gen.MSMProto.bn254.reduces Gen.MSMProto.bn254.f_innerMsmG2 = true := by decide
 
+/-- hence, for every NbTasks ≥ 1 below NumCPU, every number of chunks, every set of overweight chunks, every choice of chunk
+processors and EVERY interleaving: no send on a closed channel, a release never blocks, no deadlock -/
+theorem _innerMsmG2_safe (K nb : Nat) (hK : 1 ≤ K) (hnb : 1 ≤ nb) (split : Nat → Bool) (pick : Nat → Fn)
+    (hpick : ∀ j, pick j ∈ Gen.MSMProto.bn254.workers) (s : State)
+    (hr : Reachable (capOf (semCapOf Gen.MSMProto.bn254.f_innerMsmG2 K nb))
+      (initState (mainTrace Gen.MSMProto.bn254.f_innerMsmG2 Gen.MSMProto.bn254.reduces K nb true split pick)) s) :
+    Safe (capOf (semCapOf Gen.MSMProto.bn254.f_innerMsmG2 K nb)) s :=
+  proto_safe _ _ _ _innerMsmG2_ok K nb hK hnb split pick (fun j => workers_ok _ (hpick j)) s hr
 
 end bn254
 
@@ -278,11 +364,27 @@ theorem msmReduceChunkG2Affine_ok : ReduceOK Gen.MSMProto.bw6_633.msmReduceChunk
 every result channel received exactly once before the return; the goroutines it starts are `WorkerOK` chunk processors -/
 theorem _innerMsmG1_ok : MainOK Gen.MSMProto.bw6_633.workers Gen.MSMProto.bw6_633.reduces Gen.MSMProto.bw6_633.f_innerMsmG1 = true := by decide
 
+/-- hence, for every NbTasks ≥ 1 below NumCPU, every number of chunks, every set of overweight chunks, every choice of chunk
+processors and EVERY interleaving: no send on a closed channel, a release never blocks, no deadlock -/
+theorem _innerMsmG1_safe (K nb : Nat) (hK : 1 ≤ K) (hnb : 1 ≤ nb) (split : Nat → Bool) (pick : Nat → Fn)
+    (hpick : ∀ j, pick j ∈ Gen.MSMProto.bw6_633.workers) (s : State)
+    (hr : Reachable (capOf (semCapOf Gen.MSMProto.bw6_633.f_innerMsmG1 K nb))
+      (initState (mainTrace Gen.MSMProto.bw6_633.f_innerMsmG1 Gen.MSMProto.bw6_633.reduces K nb true split pick)) s) :
+    Safe (capOf (semCapOf Gen.MSMProto.bw6_633.f_innerMsmG1 K nb)) s :=
+  proto_safe _ _ _ _innerMsmG1_ok K nb hK hnb split pick (fun j => workers_ok _ (hpick j)) s hr
 
 /-- ecc/bw6_633 `_innerMsmG2`: NbTasks tokens pre-filled, capacity ≥ NbTasks + nbChunks, one extra token per split, `close(sem)` deferred,
 every result channel received exactly once before the return; the goroutines it starts are `WorkerOK` chunk processors -/
 theorem _innerMsmG2_ok : MainOK Gen.MSMProto.bw6_633.workers Gen.MSMProto.bw6_633.reduces Gen.MSMProto.bw6_633.f_innerMsmG2 = true := by decide
 
+/-- hence, for every NbTasks ≥ 1 below NumCPU, every number of chunks, every set of overweight chunks, every choice of chunk
+processors and EVERY interleaving: no send on a closed channel, a release never blocks, no deadlock -/
+theorem _innerMsmG2_safe (K nb : Nat) (hK : 1 ≤ K) (hnb : 1 ≤ nb) (split : Nat → Bool) (pick : Nat → Fn)
+    (hpick : ∀ j, pick j ∈ Gen.MSMProto.bw6_633.workers) (s : State)
+    (hr : Reachable (capOf (semCapOf Gen.MSMProto.bw6_633.f_innerMsmG2 K nb))
+      (initState (mainTrace Gen.MSMProto.bw6_633.f_innerMsmG2 Gen.MSMProto.bw6_633.reduces K nb true split pick)) s) :
+    Safe (capOf (semCapOf Gen.MSMProto.bw6_633.f_innerMsmG2 K nb)) s :=
+  proto_safe _ _ _ _innerMsmG2_ok K nb hK hnb split pick (fun j => workers_ok _ (hpick j)) s hr
 
 end bw6_633
 
@@ -317,11 +419,27 @@ theorem msmReduceChunkG2Affine_ok : ReduceOK Gen.MSMProto.bw6_761.msmReduceChunk
 every result channel received exactly once before the return; the goroutines it starts are `WorkerOK` chunk processors -/
 theorem _innerMsmG1_ok : MainOK Gen.MSMProto.bw6_761.workers Gen.MSMProto.bw6_761.reduces Gen.MSMProto.bw6_761.f_innerMsmG1 = true := by decide
 
+/-- hence, for every NbTasks ≥ 1 below NumCPU, every number of chunks, every set of overweight chunks, every choice of chunk
+processors and EVERY interleaving: no send on a closed channel, a release never blocks, no deadlock -/
+theorem _innerMsmG1_safe (K nb : Nat) (hK : 1 ≤ K) (hnb : 1 ≤ nb) (split : Nat → Bool) (pick : Nat → Fn)
+    (hpick : ∀ j, pick j ∈ Gen.MSMProto.bw6_761.workers) (s : State)
+    (hr : Reachable (capOf (semCapOf Gen.MSMProto.bw6_761.f_innerMsmG1 K nb))
+      (initState (mainTrace Gen.MSMProto.bw6_761.f_innerMsmG1 Gen.MSMProto.bw6_761.reduces K nb true split pick)) s) :
+    Safe (capOf (semCapOf Gen.MSMProto.bw6_761.f_innerMsmG1 K nb)) s :=
+  proto_safe _ _ _ _innerMsmG1_ok K nb hK hnb split pick (fun j => workers_ok _ (hpick j)) s hr
 
 /-- ecc/bw6_761 `_innerMsmG2`: NbTasks tokens pre-filled, capacity ≥ NbTasks + nbChunks, one extra token per split, `close(sem)` deferred,
 every result channel received exactly once before the return; the goroutines it starts are `WorkerOK` chunk processors -/
 theorem _innerMsmG2_ok : MainOK Gen.MSMProto.bw6_761.workers Gen.MSMProto.bw6_761.reduces Gen.MSMProto.bw6_761.f_innerMsmG2 = true := by decide
 
+/-- hence, for every NbTasks ≥ 1 below NumCPU, every number of chunks, every set of overweight chunks, every choice of chunk
+processors and EVERY interleaving: no send on a closed channel, a release never blocks, no deadlock -/
+theorem _innerMsmG2_safe (K nb : Nat) (hK : 1 ≤ K) (hnb : 1 ≤ nb) (split : Nat → Bool) (pick : Nat → Fn)
+    (hpick : ∀ j, pick j ∈ Gen.MSMProto.bw6_761.workers) (s : State)
+    (hr : Reachable (capOf (semCapOf Gen.MSMProto.bw6_761.f_innerMsmG2 K nb))
+      (initState (mainTrace Gen.MSMProto.bw6_761.f_innerMsmG2 Gen.MSMProto.bw6_761.reduces K nb true split pick)) s) :
+    Safe (capOf (semCapOf Gen.MSMProto.bw6_761.f_innerMsmG2 K nb)) s :=
+  proto_safe _ _ _ _innerMsmG2_ok K nb hK hnb split pick (fun j => workers_ok _ (hpick j)) s hr
 
 end bw6_761
 
@@ -347,6 +465,14 @@ theorem msmReduceChunkG1Affine_ok : ReduceOK Gen.MSMProto.grumpkin.msmReduceChun
 every result channel received exactly once before the return; the goroutines it starts are `WorkerOK` chunk processors -/
 theorem _innerMsmG1_ok : MainOK Gen.MSMProto.grumpkin.workers Gen.MSMProto.grumpkin.reduces Gen.MSMProto.grumpkin.f_innerMsmG1 = true := by decide
 
+/-- hence, for every NbTasks ≥ 1 below NumCPU, every number of chunks, every set of overweight chunks, every choice of chunk
+processors and EVERY interleaving: no send on a closed channel, a release never blocks, no deadlock -/
+theorem _innerMsmG1_safe (K nb : Nat) (hK : 1 ≤ K) (hnb : 1 ≤ nb) (split : Nat → Bool) (pick : Nat → Fn)
+    (hpick : ∀ j, pick j ∈ Gen.MSMProto.grumpkin.workers) (s : State)
+    (hr : Reachable (capOf (semCapOf Gen.MSMProto.grumpkin.f_innerMsmG1 K nb))
+      (initState (mainTrace Gen.MSMProto.grumpkin.f_innerMsmG1 Gen.MSMProto.grumpkin.reduces K nb true split pick)) s) :
+    Safe (capOf (semCapOf Gen.MSMProto.grumpkin.f_innerMsmG1 K nb)) s :=
+  proto_safe _ _ _ _innerMsmG1_ok K nb hK hnb split pick (fun j => workers_ok _ (hpick j)) s hr
 
 end grumpkin
 
@@ -372,6 +498,14 @@ theorem msmReduceChunkG1Affine_ok : ReduceOK Gen.MSMProto.secp256k1.msmReduceChu
 every result channel received exactly once before the return; the goroutines it starts are `WorkerOK` chunk processors -/
 theorem _innerMsmG1_ok : MainOK Gen.MSMProto.secp256k1.workers Gen.MSMProto.secp256k1.reduces Gen.MSMProto.secp256k1.f_innerMsmG1 = true := by decide
 
+/-- hence, for every NbTasks ≥ 1 below NumCPU, every number of chunks, every set of overweight chunks, every choice of chunk
+processors and EVERY interleaving: no send on a closed channel, a release never blocks, no deadlock -/
+theorem _innerMsmG1_safe (K nb : Nat) (hK : 1 ≤ K) (hnb : 1 ≤ nb) (split : Nat → Bool) (pick : Nat → Fn)
+    (hpick : ∀ j, pick j ∈ Gen.MSMProto.secp256k1.workers) (s : State)
+    (hr : Reachable (capOf (semCapOf Gen.MSMProto.secp256k1.f_innerMsmG1 K nb))
+      (initState (mainTrace Gen.MSMProto.secp256k1.f_innerMsmG1 Gen.MSMProto.secp256k1.reduces K nb true split pick)) s) :
+    Safe (capOf (semCapOf Gen.MSMProto.secp256k1.f_innerMsmG1 K nb)) s :=
+  proto_safe _ _ _ _innerMsmG1_ok K nb hK hnb split pick (fun j => workers_ok _ (hpick j)) s hr
 
 end secp256k1
 
